@@ -80,7 +80,23 @@ def h_inverse(L, ty, parts):
         return 'inverse'
     L.check('%s: namespace reproduced' % ty, bytes_eq_term(ns1, ns2))
     L.check('%s: name reproduced' % ty, bytes_eq_term(acc['name'], name2))
+    chk_rebuilt(L, ty, b, acc)
     return 'inverse'
+
+
+def chk_rebuilt(L, ty, b2, acc):
+    """the constructor's builder, built: the typed PURL it yields has the namespace and name of the PURL the combined name came from"""
+    I = L.I
+    r2 = b_build(I, 'Purl', b2)
+    if r2.variant == 'Err':
+        L.fail('%s: the builder made from combined_name() does not build (%s)' % (ty, err_name(r2.fields[0])))
+        return
+    a2 = accessors(I, 'Purl', r2.fields[0])
+    n1, n2 = acc['ns'] or [], a2['ns'] or []
+    if len(n1) != len(n2) or len(a2['name']) != len(acc['name']):
+        L.fail('%s: combined_name() fed back and built gives a different namespace / name' % ty)
+        return
+    L.check('%s: namespace and name reproduced after build()' % ty, b_and(bytes_eq_term(n1, n2), bytes_eq_term(acc['name'], a2['name'])))
 
 
 def h_inverse_built(L, ty, nn, nm):
@@ -122,6 +138,7 @@ def h_inverse_built(L, ty, nn, nm):
         return 'inverse'
     L.check('%s: namespace reproduced' % ty, bytes_eq_term(ns1, ns2))
     L.check('%s: name reproduced' % ty, bytes_eq_term(acc['name'], name2))
+    chk_rebuilt(L, ty, b2, acc)
     return 'inverse'
 
 
@@ -194,7 +211,15 @@ def confirm(v, resp):
     elif ns:
         return None
     got = (hx(ca['ns']), hx(ca['name']))
-    return None if got == (ns, name) else '%s: combined_name() %r fed back gives %r instead of %r' % (ty, hx(ca['combined']), got, (ns, name))
+    if got != (ns, name):
+        return '%s: combined_name() %r fed back gives %r instead of %r' % (ty, hx(ca['combined']), got, (ns, name))
+    bt = ca.get('built')
+    if bt is not None:
+        if 'err' in bt:
+            return '%s: the builder made from combined_name() %r does not build (%s)' % (ty, hx(ca['combined']), bt['err'])
+        if (hx(bt['ns']) or b'', hx(bt['name'])) != (ns, name):
+            return '%s: combined_name() %r fed back and built gives %r instead of %r' % (ty, hx(ca['combined']), (hx(bt['ns']) or b'', hx(bt['name'])), (ns, name))
+    return None
 
 
 def finding_role(v, resp):
